@@ -116,6 +116,23 @@ class Builtin(object):
         return "Builtin(%s)" % self.name
 
 
+class PyFn(object):
+    """A callable of the standard library's functional vocabulary (operator.methodcaller / attrgetter / itemgetter,
+    functools.partial): kind + the values it was built from.  Called through sa.lazyiter.pyfn_call."""
+    __slots__ = ("kind", "parts")
+
+    def __init__(self, kind, parts):
+        self.kind = kind
+        self.parts = parts
+
+    def __call__(self, interp, st, args, kwargs, node):
+        from .lazyiter import pyfn_call
+        return pyfn_call(self, interp, st, args, kwargs, node)
+
+    def __repr__(self):
+        return "PyFn(%s)" % self.kind
+
+
 class ModuleVal(object):
     __slots__ = ("mod",)        # index.Module or external dotted name (str)
 
@@ -244,6 +261,8 @@ def _vkey_slow(v, ren=None):
         return ("M", getattr(v.mod, "name", v.mod))
     if isinstance(v, AbsSeq):
         return ("AS", v.name)
+    if isinstance(v, PyFn):
+        return ("PF", v.kind, vkey(v.parts, ren))
     if isinstance(v, LenOf):
         return ("LEN", v.seq)
     if isinstance(v, SymLen):
@@ -293,6 +312,8 @@ def refs_in(v, out):
             refs_in(x, out)
     elif isinstance(v, BoundMeth):
         refs_in(v.self_val, out)
+    elif isinstance(v, PyFn):
+        refs_in(v.parts, out)
     elif isinstance(v, SuperVal):
         refs_in(v.self_val, out)
     elif isinstance(v, Exc):
